@@ -26,7 +26,8 @@ func init() {
 			"fields that are deliberately not persisted (listed as info: IsSuperUser is persisted through the separate SuperUser vector, IsEphemeral users are never persisted), " +
 			"and OverwriteUsersAndGrantData (reported as info only: it documents that it restores users and grants only)",
 		Run: func(c *Ctx) {
-			runC41(c, "sql/mysql_db", "sql/mysql_db/serial", "MySQLDb.Persist", "MySQLDb.LoadData", 45, 41)
+			pairs := runC41(c, "sql/mysql_db", "sql/mysql_db/serial", "MySQLDb.Persist", "MySQLDb.LoadData", 45, 41)
+			runC41Tree(c, "sql/mysql_db", "PrivilegeSet", pairs, c41tFloors{})
 		},
 		Fixture: func(c *Ctx, fx *Prog) {
 			expectFixture(c, fx, "c41: unread field, unwritten field and swapped fields must be reported",
@@ -114,25 +115,28 @@ func c41Tables(c *Ctx, sp *packages.Package) []*c41Table {
 
 type c41Pair struct{ s, t string } // "Struct.field", "Table.Field"
 
-func runC41(c *Ctx, dbRel, serialRel, persistRoot, loadRoot string, floorF1, floorF2 int) {
+// c41Pairs is the writer-side and the loader-side relation {(Struct.field, Table.Field)} computed by C41-F2.
+type c41Pairs struct{ W, L map[c41Pair]token.Pos }
+
+func runC41(c *Ctx, dbRel, serialRel, persistRoot, loadRoot string, floorF1, floorF2 int) *c41Pairs {
 	c.Rule("C41-F1", "for every field F of every flatbuffer table T of package serial: TAddF is called by a function reachable from "+persistRoot+
 		" iff the accessor (*T).F (or FBytes) is used by a function reachable from "+loadRoot, floorF1)
 	c.Rule("C41-F2", "the writer stores struct field S.f into serialized field T.F (argument of TAddF may depend on S.f) iff the loader's composite literal of S fills f from an expression that may depend on accessor (*T).F", floorF2)
 	db, sp := c.P.Pkg(dbRel), c.P.Pkg(serialRel)
 	if db == nil || sp == nil {
 		c.Undecided("C41-F1", "packages", 0, "anchor packages not loaded: "+dbRel+", "+serialRel)
-		return
+		return nil
 	}
 	info := db.TypesInfo
 	pRoot, lRoot := LookupFunc(db, persistRoot), LookupFunc(db, loadRoot)
 	if pRoot == nil || lRoot == nil || c.P.Decl(pRoot) == nil || c.P.Decl(lRoot) == nil {
 		c.Undecided("C41-F1", "roots", 0, "anchor functions not found: "+persistRoot+", "+loadRoot)
-		return
+		return nil
 	}
 	tables := c41Tables(c, sp)
 	if len(tables) == 0 {
 		c.Undecided("C41-F1", "tables", 0, "no flatbuffer tables (type T with TStart/TEnd) found in "+serialRel)
-		return
+		return nil
 	}
 	addOf := map[*types.Func][2]string{} // TAddF -> (T, F)
 	accOf := map[*types.Func][2]string{} // any accessor-like method of T -> (T, F), exact accessors only
@@ -502,6 +506,7 @@ func runC41(c *Ctx, dbRel, serialRel, persistRoot, loadRoot string, floorF1, flo
 			}
 		}
 	}
+	return &c41Pairs{W: pairsW, L: pairsL}
 }
 
 func originOf(fn *types.Func) *types.Func {
